@@ -22,7 +22,10 @@ RULE = ("cases = (trajectory of 2..500 poses [+ second trajectory], plot mode, l
         "compared with the model fed the exact rational value of each input element (also strided / Fortran / read-only arrays and lists, "
         "pre-read caches); half of the cases replay an object-reuse history (speeds -> traj_xyz twice -> traj_rpy -> speeds twice -> traj "
         "twice on one Axes) where every call is judged on the object's own data; trajectories() with dict of 2/3, list of 3, single object and "
-        "adversarial names; all 7 modes x 4 units enumerated "
+        "adversarial names; numeric arguments (start time, marker scale, colour-map bounds) as Python int/float, numpy float64/float32/int64/"
+        "int32 scalars and 0-d arrays (value made exactly representable first); figure-management variants (target figure not pyplot's "
+        "current one, bare Figure with an Agg canvas, second current Axes in the same figure: labels read from the axes drawn into, witness "
+        "axes must stay empty); all 7 modes x 4 units enumerated "
         "first, then random combinations; non-trivial = at least 3 poses and not all coordinates equal; distinct by content hash")
 
 MODES = ["xy", "xz", "yx", "yz", "zx", "zy", "xyz"]
@@ -118,6 +121,7 @@ def gen_case(r, grid, n, mode=None, unit=None):
             "names": r.sample(["est", "a_b", "\u00fc x", "1e3", " lead", "b.tum", "-1", "x" * 40], 3),
             "preread": r.sample(["positions_xyz", "orientations_quat_wxyz", "poses_se3", "distances", "check", "timestamps"], r.randint(0, 3)),
             "stamps_readonly": r.random() < 0.15, "reuse": r.random() < 0.5,
+            "figmgmt": r.choice([None, None, "other_current", "bare", "two_axes"]),
             "step": step, "ncol": ncol, "clc_n": clc_n, "bad_unit": r.choice(NON_LENGTH) if r.random() < 0.05 else None}
 
 
@@ -166,7 +170,29 @@ def gen_typed_case(r, mode, dt1, dt2):
     return c
 
 
+def add_forms(r, c):
+    """argument forms of the numeric options: the value is first made exactly representable in the form"""
+    if r.random() < 0.5:
+        return c
+    f = {"start": r.choice(ARG_FORMS), "scale": r.choice(ARG_FORMS), "map": r.choice(["pyfloat", "pyint", "np.int64", "np.float64", "0d-int"])}
+    if c["start"] is not None:
+        c["start"] = representable(f["start"], c["start"])
+    sc = representable(f["scale"], c["scale"])
+    if sc <= 0 < c["scale"]:
+        sc = 1.0
+    c["scale"] = sc
+    if f["map"] != "pyfloat":
+        c["amin"], c["amax"] = float(math.floor(c["amin"])), float(math.ceil(c["amax"]) + 1)
+    c["forms"] = f
+    return c
+
+
 def gen_cases(ctx):
+    for c in gen_cases_(ctx):
+        yield add_forms(ctx.rng, c)
+
+
+def gen_cases_(ctx):
     r = ctx.rng
     # every mode x unit first (small, exact grid), then random combinations
     for mode in MODES:
@@ -177,7 +203,7 @@ def gen_cases(ctx):
         for mode in MODES:
             for dt1, dt2 in DTYPE_PAIRS:
                 yield gen_typed_case(r, mode, dt1, dt2)
-    n_grid, n_rand = (110, 110) if not ctx.thorough else (900, 900)
+    n_grid, n_rand = (75, 75) if not ctx.thorough else (800, 800)
     for k in range(n_grid):
         yield gen_case(r, True, r.choice([2, 3, 3, 4, 5, 7, 8, 9, 13, 15, 16, 17, 31, 32, 33, r.randint(2, 40)]))
     for k in range(n_rand):
@@ -188,6 +214,25 @@ def gen_cases(ctx):
 # ----------------------------------------------------------------------------- implementation side
 def fl(a):
     return [float(x) for x in np.asarray(a, dtype=float).ravel()]
+
+
+ARG_FORMS = ["pyfloat", "pyint", "np.float64", "np.float32", "np.int64", "np.int32", "0d", "0d-int"]
+
+
+def representable(form, x):
+    """the value nearest to x that the argument form holds exactly (the case stores that value)"""
+    if form in ("pyint", "np.int64", "np.int32", "0d-int"):
+        return float(int(round(x)))
+    if form == "np.float32":
+        return float(np.float32(x))
+    return float(x)
+
+
+def as_form(form, x):
+    if x is None or form in (None, "pyfloat"):
+        return x
+    return {"pyint": lambda v: int(v), "np.float64": np.float64, "np.float32": np.float32, "np.int64": lambda v: np.int64(int(v)),
+            "np.int32": lambda v: np.int32(int(v)), "0d": lambda v: np.array(v), "0d-int": lambda v: np.array(int(v))}[form](x)
 
 
 def make_traj(pos, rot, stamps, dtype=None, layout=None):
@@ -258,6 +303,40 @@ def run_impl_(case):
     mode = plot.PlotMode[case["mode"]]
     unit = Unit[case["unit"]]
     dts = case.get("dtypes") or [None, None]
+    forms = case.get("forms") or {}
+    START = as_form(forms.get("start"), case["start"])
+    SCALE = as_form(forms.get("scale"), case["scale"])
+    AMIN, AMAX = as_form(forms.get("map"), case["amin"]), as_form(forms.get("map"), case["amax"])
+
+    def prepared(subplot_fig_only=False):
+        """figure-management variants: the figure handed to evo is not pyplot's current one / is a bare Figure / holds a second,
+        current Axes; returns (fig, prepared axes or None, witness axes that must stay untouched)"""
+        from matplotlib.figure import Figure
+        from matplotlib.backends.backend_agg import FigureCanvasAgg
+        kind = case.get("figmgmt")
+        wit = []
+        if kind == "bare":
+            fig = Figure()
+            FigureCanvasAgg(fig)
+            wit.append(plt.figure().add_subplot(111))
+        elif kind == "other_current" or (kind == "two_axes" and subplot_fig_only):
+            fig = plt.figure()
+            wit.append(plt.figure().add_subplot(111))
+        elif kind == "two_axes":
+            fig = plt.figure()
+            wit.append(fig.add_subplot(121))
+        else:
+            fig = plt.figure()
+        if subplot_fig_only:
+            return fig, None, wit
+        ax = plot.prepare_axis(fig, mode, 122 if kind == "two_axes" else 111, unit)
+        if kind == "two_axes":
+            plt.sca(wit[0])
+        return fig, ax, wit
+
+    def wstate(wit):
+        return [[w.get_xlabel(), w.get_ylabel(), w.get_title(), len(w.lines), len(w.collections)] for w in wit]
+
     lay = case.get("layouts") or [None, None]
     tr = make_traj(case["pos"], case["rot"], case["stamps"], dts[0], lay[0])
     tr2 = make_traj(case["pos2"], case["rot"][:len(case["pos2"])], None, dts[1], lay[1])
@@ -285,8 +364,8 @@ def run_impl_(case):
     guarded("idx", f_idx)
 
     def f_traj():
-        fig = plt.figure()
         via = case["via_trajectories"]
+        fig, ax, wit = prepared(subplot_fig_only=bool(via))
         if via:
             names = case.get("names") or ["est", "other", "third"]
             arg = {"dict3": {names[0]: tr, names[1]: tr2, names[2]: tr}, "list3": [tr, tr2, tr], "single": tr}.get(
@@ -295,13 +374,13 @@ def run_impl_(case):
             ax = fig.axes[0]
             nlines = 2
         else:
-            ax = plot.prepare_axis(fig, mode, 111, unit)
             plot.traj(ax, mode, tr, "-", "black", "est", plot_start_end_markers=case["markers"])
             nlines = 1
         d = {"labels": axis_labels(ax), "nlines": len(ax.lines), "line": line_data(ax.lines[0]),
              "line_label": ax.lines[0].get_label(), "ncoll": len(ax.collections)}
         if nlines == 2 and len(ax.lines) >= 2:
             d["line2"] = line_data(ax.lines[1])
+        d["witness"] = wstate(wit)
         d["all_lines"] = [line_data(ln) for ln in ax.lines]
         d["all_labels"] = [ln.get_label() for ln in ax.lines]
         if len(ax.collections) >= 2:
@@ -318,31 +397,29 @@ def run_impl_(case):
         guarded("bad_unit", f_bad)
 
     def f_axes():
-        fig = plt.figure()
-        ax = plot.prepare_axis(fig, mode, 111, unit)
-        plot.draw_coordinate_axes(ax, tr, mode, case["scale"])
+        fig, ax, wit = prepared()
+        plot.draw_coordinate_axes(ax, tr, mode, SCALE)
         if not ax.collections:
             out["axes"] = "NONE"
         else:
             c = ax.collections[-1]
-            out["axes"] = {"segs": coll_segments(c), "colors": [fl(x) for x in c.get_color()]}
+            out["axes"] = {"segs": coll_segments(c), "colors": [fl(x) for x in c.get_color()], "witness": wstate(wit),
+                           "labels": axis_labels(ax)}
     guarded("axes", f_axes)
 
     def f_edges():
-        fig = plt.figure()
-        ax = plot.prepare_axis(fig, mode, 111, unit)
+        fig, ax, wit = prepared()
         plot.draw_correspondence_edges(ax, tr, tr2, mode)
-        out["edges"] = {"segs": coll_segments(ax.collections[-1])}
+        out["edges"] = {"segs": coll_segments(ax.collections[-1]), "witness": wstate(wit), "labels": axis_labels(ax)}
     guarded("edges", f_edges)
 
     def f_cmap():
-        fig = plt.figure()
-        ax = plot.prepare_axis(fig, mode, 111, unit)
-        plot.traj_colormap(ax, tr, np.array(case["arr"], dtype=case.get("arr_dtype", "float64")), mode, case["amin"], case["amax"], fig=fig,
+        fig, ax, wit = prepared()
+        plot.traj_colormap(ax, tr, np.array(case["arr"], dtype=case.get("arr_dtype", "float64")), mode, AMIN, AMAX, fig=fig,
                            plot_start_end_markers=case["markers"])
         c = ax.collections[0]
         d = {"segs": coll_segments(c), "colors": [fl(x) for x in c.get_color()], "ncoll": len(ax.collections),
-             "cmap": SETTINGS.plot_trajectory_cmap}
+             "cmap": SETTINGS.plot_trajectory_cmap, "witness": wstate(wit), "labels": axis_labels(ax)}
         if len(ax.collections) >= 3:
             d["start"] = scatter_point(ax.collections[1])
             d["end"] = scatter_point(ax.collections[2])
@@ -359,7 +436,7 @@ def run_impl_(case):
 
     def f_xyz():
         fig, axarr = plt.subplots(3)
-        plot.traj_xyz(axarr, tr, start_timestamp=case["start"], length_unit=unit)
+        plot.traj_xyz(axarr, tr, start_timestamp=START, length_unit=unit)
         out["xyz"] = {"x": [fl(a.lines[0].get_xdata(orig=True)) for a in axarr],
                       "y": [fl(a.lines[0].get_ydata(orig=True)) for a in axarr],
                       "ylabels": [a.get_ylabel() for a in axarr], "xlabel": axarr[2].get_xlabel()}
@@ -367,7 +444,7 @@ def run_impl_(case):
 
     def f_rpy():
         fig, axarr = plt.subplots(3)
-        plot.traj_rpy(axarr, tr, start_timestamp=case["start"])
+        plot.traj_rpy(axarr, tr, start_timestamp=START)
         ang = tr.get_orientations_euler(SETTINGS.euler_angle_sequence)
         out["rpy"] = {"x": [fl(a.lines[0].get_xdata(orig=True)) for a in axarr],
                       "y": [fl(a.lines[0].get_ydata(orig=True)) for a in axarr],
@@ -378,7 +455,7 @@ def run_impl_(case):
     def f_speeds():
         fig = plt.figure()
         ax = fig.add_subplot(111)
-        plot.speeds(ax, tr, start_timestamp=case["start"])
+        plot.speeds(ax, tr, start_timestamp=START)
         out["speeds"] = {"x": fl(ax.lines[0].get_xdata(orig=True)), "y": fl(ax.lines[0].get_ydata(orig=True)),
                          "labels": [ax.get_xlabel(), ax.get_ylabel()], "param": fl(tr.speeds)}
     guarded("speeds", f_speeds)
@@ -401,20 +478,20 @@ def run_impl_(case):
         if case["stamps"] is not None:
             fig = plt.figure()
             ax = fig.add_subplot(111)
-            plot.speeds(ax, tr, start_timestamp=case["start"])
+            plot.speeds(ax, tr, start_timestamp=START)
             d["speeds1"] = [fl(ax.lines[0].get_xdata(orig=True)), fl(ax.lines[0].get_ydata(orig=True))]
         fig, axarr = plt.subplots(3)
-        plot.traj_xyz(axarr, tr, start_timestamp=case["start"], length_unit=unit)
-        plot.traj_xyz(axarr, tr, start_timestamp=case["start"], length_unit=unit)          # same axes twice
+        plot.traj_xyz(axarr, tr, start_timestamp=START, length_unit=unit)
+        plot.traj_xyz(axarr, tr, start_timestamp=START, length_unit=unit)          # same axes twice
         d["xyz"] = [[fl(ln.get_xdata(orig=True)), fl(ln.get_ydata(orig=True))] for a in axarr for ln in a.lines]
         fig, axarr = plt.subplots(3)
-        plot.traj_rpy(axarr, tr, start_timestamp=case["start"])
+        plot.traj_rpy(axarr, tr, start_timestamp=START)
         d["rpy_x"] = [fl(a.lines[0].get_xdata(orig=True)) for a in axarr]
         if case["stamps"] is not None:
             fig = plt.figure()
             ax = fig.add_subplot(111)
-            plot.speeds(ax, tr, start_timestamp=case["start"])
-            plot.speeds(ax, tr, start_timestamp=case["start"])
+            plot.speeds(ax, tr, start_timestamp=START)
+            plot.speeds(ax, tr, start_timestamp=START)
             d["speeds2"] = [[fl(ln.get_xdata(orig=True)), fl(ln.get_ydata(orig=True))] for ln in ax.lines]
         fig = plt.figure()
         ax = plot.prepare_axis(fig, mode, 111, unit)
@@ -680,6 +757,9 @@ def judge(ctx, case, impl, outs):
         ctx.count("dist", "dtypes:" + "/".join(case["dtypes"]))
         ctx.count("dist", "layouts:" + "/".join(str(x) for x in case.get("layouts") or []))
     ctx.count("dist", f"via_trajectories:{case['via_trajectories']}")
+    ctx.count("dist", f"figmgmt:{case.get('figmgmt')}")
+    for k2, v2 in (case.get("forms") or {}).items():
+        ctx.count("dist", f"form:{k2}:{v2}")
     ctx.count("branch", "reuse-" + ("done" if isinstance(impl.get("reuse"), dict) else "failed" if case.get("reuse", True) else "not-run"))
     ctx.count("dist", "timestamps" if case["stamps"] is not None else "no-timestamps")
     ctx.count("dist", "start:" + ("none" if case["start"] is None else "zero" if case["start"] == 0 else "given"))
@@ -733,6 +813,16 @@ def oracle(ctx, case, impl):
     want_labels = [f"${ch}$ ({u})" for ch in m] + ([None] if d == 2 else [])
     tags = {"mode": m}
 
+    for name in ("traj", "axes", "edges", "cmap"):
+        v = impl.get(name)
+        if not isinstance(v, dict):
+            continue
+        if any(w != ["", "", "", 0, 0] for w in v.get("witness") or []):
+            ctx.fail(case, "labels-and-artists-on-the-given-axes", f"{name} ({case.get('figmgmt')}): another axes / figure gained labels or artists: "
+                     f"{v['witness']}", tags)
+        if name != "traj" and v.get("labels") is not None and v["labels"] != want_labels:
+            ctx.fail(case, "labels-name-plotted-axes-and-unit", f"{name} ({case.get('figmgmt')}): the prepared axes carry {v['labels']}, "
+                     f"expected {want_labels}", tags)
     t = impl.get("traj")
     if isinstance(t, dict):
         if t["labels"] != want_labels:
